@@ -168,7 +168,7 @@ theorem nic_lookup_describe (t : Truth) (h : String) (i : Nat) :
     simp only [Option.map_some, Option.bind_some, describeNode]
     rw [show n.nics.map describeNic = n.nics.map (fun x => (x.num, (describeNic x).2)) from rfl, lookupN_map]
 
-theorem C09_nic_eq_spec (capture : Bool) (o : NicObs) (t : Truth) : o.val capture (describe t) = o.spec capture t := by
+theorem C09_nic_eq_spec (o : NicObs) (t : Truth) : o.val (describe t) = o.spec t := by
   unfold NicObs.val NicObs.find NicObs.spec
   cases o.wh with
   | none => rfl
@@ -179,7 +179,7 @@ theorem C09_nic_eq_spec (capture : Bool) (o : NicObs) (t : Truth) : o.val captur
     | none => rfl
     | some n =>
       simp only [Option.map_some, describeNic]
-      cases capture <;> cases n.capturing <;> rfl
+      cases n.capturing <;> rfl
 
 theorem C09_port_eq_spec (o : PortObs) (t : Truth) : o.val (describe t) = o.spec t := by
   unfold PortObs.val PortObs.spec
@@ -292,8 +292,8 @@ theorem users_eq_spec (n : NodeT) (h : n.localUser ≠ some "") : usersVal (desc
 
 def HostObs.Coherent (o : HostObs) (t : Truth) : Prop := ∀ f ∈ o.folders, f.Coherent t
 
-theorem C09_host_eq_spec (capture : Bool) (o : HostObs) (t : Truth) (wt : WfTruth t) (c : o.Coherent t) :
-    o.val capture (describe t) = o.spec capture t := by
+theorem C09_host_eq_spec (o : HostObs) (t : Truth) (wt : WfTruth t) (c : o.Coherent t) :
+    o.val (describe t) = o.spec t := by
   unfold HostObs.val HostObs.find HostObs.spec
   cases o.wh with
   | none => rfl
@@ -311,8 +311,8 @@ theorem C09_host_eq_spec (capture : Bool) (o : HostObs) (t : Truth) (wt : WfTrut
           List.map_congr_left (fun x _ => C09_application_eq_spec x t)
         have h3 : o.folders.map (fun x => x.val (describe t)) = o.folders.map (fun x => x.spec t) :=
           List.map_congr_left (fun x hx => C09_folder_eq_spec x t (c x hx))
-        have h4 : o.nics.map (fun x => NicObs.val capture x (describe t)) = o.nics.map (fun x => NicObs.spec capture x t) :=
-          List.map_congr_left (fun x _ => C09_nic_eq_spec capture x t)
+        have h4 : o.nics.map (fun x => NicObs.val x (describe t)) = o.nics.map (fun x => NicObs.spec x t) :=
+          List.map_congr_left (fun x _ => C09_nic_eq_spec x t)
         have h5 := users_eq_spec n (wt n (Truth.node_mem hn))
         rw [h1, h2, h3, h4, h5]
         rfl
@@ -369,37 +369,37 @@ end
 mutual
 /-- **C09, top level**: for every observation object and every ground truth, what the code's `observe` returns on
 `describe_state()` of the objects is the documented encoding of those objects. -/
-theorem C09_observe_eq_spec (capture : Bool) (t : Truth) (wt : WfTruth t) :
-    ∀ o : Obs, o.Faithful t → o.val capture (describe t) = o.spec capture t
+theorem C09_observe_eq_spec (t : Truth) (wt : WfTruth t) :
+    ∀ o : Obs, o.Faithful t → o.val (describe t) = o.spec t
   | .null, _ => rfl
   | .service o, _ => C09_service_eq_spec o t
   | .app o, _ => C09_application_eq_spec o t
   | .file o, _ => C09_file_eq_spec o t
   | .folder o, c => C09_folder_eq_spec o t c
-  | .nic o, _ => C09_nic_eq_spec capture o t
+  | .nic o, _ => C09_nic_eq_spec o t
   | .port o, _ => C09_port_eq_spec o t
   | .link o, _ => C09_link_eq_spec o t
   | .links os, _ => by
     simp only [Obs.val, Obs.spec]
     rw [List.map_congr_left (fun x _ => C09_link_eq_spec x t)]
   | .acl o, c => C09_acl_eq_spec o t c
-  | .host o, c => C09_host_eq_spec capture o t wt c
+  | .host o, c => C09_host_eq_spec o t wt c
   | .router o, c => C09_router_eq_spec o t wt c
   | .firewall o, _ => C09_firewall_eq_spec o t wt
   | .nodes o, c => by
     simp only [Obs.val, Obs.spec, NodesObs.val, NodesObs.spec]
-    rw [List.map_congr_left (fun x hx => C09_host_eq_spec capture x t wt (c.1 x hx)),
+    rw [List.map_congr_left (fun x hx => C09_host_eq_spec x t wt (c.1 x hx)),
         List.map_congr_left (fun x hx => C09_router_eq_spec x t wt (c.2 x hx)),
         List.map_congr_left (fun x _ => C09_firewall_eq_spec x t wt)]
   | .nested cs, c => by
     simp only [Obs.val, Obs.spec]
-    rw [C09_nested_eq_spec capture t wt cs c]
-theorem C09_nested_eq_spec (capture : Bool) (t : Truth) (wt : WfTruth t) :
-    ∀ cs : List (String × Obs), Obs.FaithfulL t cs → Obs.valL capture (describe t) cs = Obs.specL capture t cs
+    rw [C09_nested_eq_spec t wt cs c]
+theorem C09_nested_eq_spec (t : Truth) (wt : WfTruth t) :
+    ∀ cs : List (String × Obs), Obs.FaithfulL t cs → Obs.valL (describe t) cs = Obs.specL t cs
   | [], _ => rfl
   | c :: cs, h => by
     simp only [Obs.valL, Obs.specL]
-    rw [C09_observe_eq_spec capture t wt c.2 h.1, C09_nested_eq_spec capture t wt cs h.2]
+    rw [C09_observe_eq_spec t wt c.2 h.1, C09_nested_eq_spec t wt cs h.2]
 end
 
 /-! ### scan gating: visible value exactly when scanning is required, true value otherwise (per component kind) -/
@@ -442,11 +442,11 @@ theorem C09_absent_default_file (o : FileObs) (st : SimState) (h : o.find st = n
   simp [FileObs.val, h]
 theorem C09_absent_default_folder (o : FolderObs) (st : SimState) (h : o.find st = none) : o.val st = o.default := by
   simp [FolderObs.val, h]
-theorem C09_absent_default_nic (capture : Bool) (o : NicObs) (st : SimState) (h : o.find st = none) :
-    o.val capture st = o.default := by
+theorem C09_absent_default_nic (o : NicObs) (st : SimState) (h : o.find st = none) :
+    o.val st = o.default := by
   simp [NicObs.val, h]
-theorem C09_absent_default_host (capture : Bool) (o : HostObs) (st : SimState) (h : o.find st = none) :
-    o.val capture st = o.default := by
+theorem C09_absent_default_host (o : HostObs) (st : SimState) (h : o.find st = none) :
+    o.val st = o.default := by
   simp [HostObs.val, h]
 /-- a deleted file is not among the folder's live files, so its observation is the default -/
 theorem C09_deleted_file_default (o : FileObs) (t : Truth) (h fo fi : String) (hw : o.wh = some (h, fo, fi))
@@ -454,8 +454,8 @@ theorem C09_deleted_file_default (o : FileObs) (t : Truth) (h fo fi : String) (h
   rw [C09_file_eq_spec]; simp [FileObs.spec, hw, hf]
 
 /-- a host that is present but not ON: every component leaf is its default, `operating_status` is still the power state -/
-theorem C09_not_on_default (capture : Bool) (o : HostObs) (st : SimState) (n : NodeState) (h : o.find st = some n)
-    (hop : n.op ≠ nodeOn) : o.val capture st = o.offVal n.op ∧
+theorem C09_not_on_default (o : HostObs) (st : SimState) (n : NodeState) (h : o.find st = some n)
+    (hop : n.op ≠ nodeOn) : o.val st = o.offVal n.op ∧
       lookupK (.s "operating_status") (match o.offVal n.op with | .dict kvs => kvs | _ => []) = some (.int n.op) := by
   refine ⟨by simp [HostObs.val, h, hop], by simp [HostObs.offVal, lookupK]⟩
 
@@ -567,8 +567,21 @@ theorem C09_folder_cache_tracks_visible (fs : List FolderState) :
 band of the events of the next step only -/
 theorem C09_nmne_memory (o : NicObs) (st : SimState) (n : NicState) (i u : Nat) (hf : o.find st = some n)
     (hi : o.includeNmne = true) (hn : n.nmne = some (i, u)) :
-    (o.next true st).lastIn = i ∧ (o.next true st).lastOut = u := by
+    (o.next st).lastIn = i ∧ (o.next st).lastOut = u := by
   simp [NicObs.next, hf, hi, hn]
+
+
+/-- **the NMNE leaves follow the OBSERVED interface's own network settings** (F-10 repaired): with `include_nmne`, an interface whose
+settings capture shows the band of the events since its previous observation, an interface whose settings do not capture shows zeros
+— whatever any other network, game or observation in the process is configured to do (no process-wide switch enters the statement) -/
+theorem C09_nmne_follows_interface (o : NicObs) (t : Truth) (h : String) (i : Nat) (n : NicT)
+    (hw : o.wh = some (h, i)) (hn : t.nic h i = some n) (hi : o.includeNmne = true) :
+    lookupK (.s "NMNE") (match o.val (describe t) with | .dict kvs => kvs | _ => []) =
+      some (if n.capturing then
+              .dict (dirDict (.int (categorise o.thr ((n.nmneIn : Int) - o.lastIn))) (.int (categorise o.thr ((n.nmneOut : Int) - o.lastOut))))
+            else .dict (dirDict (.int 0) (.int 0))) := by
+  rw [C09_nic_eq_spec]
+  simp [NicObs.spec, hw, hn, hi, optEntry, lookupK]
 
 /-! ### non-vacuity -/
 
@@ -588,7 +601,7 @@ def exTruth : Truth :=
 def exHost9 : HostObs := { exHost with folders := exHost.folders.map (fun f => { f with cached := 4 }) }
 
 example : WfTruth exTruth ∧ (Obs.host exHost9).Faithful exTruth ∧
-    exHost9.val true (describe exTruth) = exHost9.spec true exTruth ∧ (exHost9.spec true exTruth).raises = false := by
+    exHost9.val (describe exTruth) = exHost9.spec exTruth ∧ (exHost9.spec exTruth).raises = false := by
   refine ⟨?_, ?_, ?_, by decide⟩
   · intro n hn; simp only [exTruth, List.mem_singleton] at hn; subst hn; simp
   · intro f hf
@@ -599,7 +612,7 @@ example : WfTruth exTruth ∧ (Obs.host exHost9).Faithful exTruth ∧
     obtain ⟨rfl, rfl⟩ := hw
     simp [Truth.folder, Truth.node, exTruth] at hfo
     subst hfo; rfl
-  · exact C09_observe_eq_spec true exTruth (by intro n hn; simp only [exTruth, List.mem_singleton] at hn; subst hn; simp)
+  · exact C09_observe_eq_spec exTruth (by intro n hn; simp only [exTruth, List.mem_singleton] at hn; subst hn; simp)
       (.host exHost9) (by
         intro f hf
         simp only [exHost9, exHost, List.map_cons, List.map_nil, List.mem_singleton] at hf
